@@ -408,6 +408,21 @@ def _norm_pat(p):
     return q
 
 
+def _only_break(b):
+    """a block that does nothing but `break` (no label, no value)"""
+    b = peel(b)
+    if b.get('k') == 'Break':
+        return not b.get('ch') and not b.get('label')
+    if b.get('k') != 'Block':
+        return False
+    items = [st.get('e') for st in b.get('stmts', []) if st.get('k') in ('Semi', 'Expr')]
+    if len(items) != len(b.get('stmts', [])):
+        return False
+    if 'expr' in b:
+        items.append(b['expr'])
+    return len(items) == 1 and _only_break(items[0]) if items and peel(items[0]).get('k') == 'Break' else False
+
+
 def normalize(e):
     """Re-sugar `for`, `while`, ranges and destructuring assignments (returns a new tree)."""
     if isinstance(e, list):
@@ -454,6 +469,19 @@ def normalize(e):
                         'id': e.get('id'), 'ty': '()'}
         except (KeyError, IndexError):
             pass
+        return e
+    # `loop { if c { break; } rest }` is `while !c { rest }`
+    if k == 'Loop' and e.get('src') != 'While':
+        blk = e['ch'][0] if e.get('ch') else {}
+        stmts = blk.get('stmts', []) if isinstance(blk, dict) else []
+        if stmts and stmts[0].get('k') in ('Semi', 'Expr'):
+            iff = peel(stmts[0]['e'])
+            if iff.get('k') == 'If' and len(iff['ch']) == 2 and _only_break(iff['ch'][1]):
+                cond = {'k': 'Unary', 'op': 'Not', 'ch': [iff['ch'][0]], 'ty': 'bool', 'sp': iff.get('sp'),
+                        'id': iff.get('id')}
+                body = dict(blk)
+                body['stmts'] = stmts[1:]
+                return {'k': 'While', 'ch': [cond, body], 'sp': e.get('sp'), 'id': e.get('id'), 'ty': '()'}
         return e
     # ranges
     if k == 'Struct' and e.get('def') and strip_generics(e['def']).endswith('ops::Range') \
